@@ -1,7 +1,7 @@
 use crate::{
     cfg::Cfg,
     parser::InstructionProperties,
-    passes::{DiagnosticBuilder, DiagnosticManager, LintError, LintPass},
+    passes::{DiagnosticBuilder, DiagnosticLocation, DiagnosticManager, LintError, LintPass},
 };
 use std::rc::Rc;
 
@@ -19,8 +19,16 @@ impl LintPass for ControlFlowCheck {
                 // If the previous nodes set is not empty
                 // Note: this also accounts for functions being at the beginning
                 // of a program, as the ProgEntry node will be the previous node
-                for prev_node in node.prevs().iter() {
-                    for function in node.functions().iter() {
+                // Visit predecessors and owning functions in source order: both
+                // live in hash sets, and the order decides which of two
+                // diagnostics on this node comes first
+                let mut functions = node.functions().iter().cloned().collect::<Vec<_>>();
+                functions.sort_by_key(|func| {
+                    let entry = func.entry();
+                    (entry.range().start().raw_index(), entry.file())
+                });
+                for prev_node in &crate::cfg::in_source_order(&node.prevs()) {
+                    for function in &functions {
                         if prev_node.is_program_entry() {
                             errors.push(LintError::FirstInstructionIsFunction(
                                 node.node().clone(),
